@@ -310,14 +310,18 @@ def run_arithmetic(ctx, byte):
                     ctx.fail({"kind": "arith", "op": label, "a": da}, f"{label} in {da}: constant term {c0.tolist()} should be 0", ["arith", "zero-term", "value"])
             # power keeps the dtype
             A = numpoly.polynomial_from_attributes([[1], [0]], [data(da), data(da)[::-1].copy()], ("q0",), dtype=da)
-            try:
-                R = A ** 2
-                ctx.evaluations += 1
-                if R.dtype != numpy.dtype(da) or poisoned(R, byte):
-                    ctx.fail({"kind": "arith", "op": "pow", "a": da}, f"({da} polynomial)**2 has dtype {R.dtype} / poison {poisoned(R, byte)}", ["arith", "op:pow", f"a:{da}"])
-            except Exception as err:  # noqa: BLE001
-                if da != "bool":
-                    ctx.fail({"kind": "arith", "op": "pow", "a": da}, f"({da} polynomial)**2 raised {type(err).__name__}: {err}", ["arith", "op:pow", "raises"])
+            for klabel, k in (("2", 2), ("0", 0), ("1", 1), ("int64(0)", numpy.int64(0)), ("array(0)", numpy.array(0)),
+                              ("array([0, 0, 0])", numpy.array([0, 0, 0])), ("array([0, 2, 1])", numpy.array([0, 2, 1]))):
+                try:
+                    R = A ** k
+                    ctx.evaluations += 1
+                    if R.dtype != numpy.dtype(da) or poisoned(R, byte):
+                        ctx.fail({"kind": "arith", "op": "pow", "a": da, "k": klabel}, f"({da} polynomial)**{klabel} has dtype {R.dtype} / poison {poisoned(R, byte)}", ["arith", "op:pow", f"a:{da}"])
+                    elif klabel in ("0", "int64(0)", "array(0)", "array([0, 0, 0])") and not (R.isconstant() and numpy.all(R.tonumpy() == 1)):
+                        ctx.fail({"kind": "arith", "op": "pow", "a": da, "k": klabel}, f"({da} polynomial)**{klabel} is {R}, not 1", ["arith", "op:pow", "value"])
+                except Exception as err:  # noqa: BLE001
+                    if da != "bool":
+                        ctx.fail({"kind": "arith", "op": "pow", "a": da, "k": klabel}, f"({da} polynomial)**{klabel} raised {type(err).__name__}: {err}", ["arith", "op:pow", "raises"])
 
 
 def run_shape_functions(ctx, byte):
